@@ -124,12 +124,12 @@ func init() {
 			}
 			return s
 		},
-		"bytes.Equal":             extBytesEqual,
-		"bytes.Compare":           extBytesCompare,
-		"bytes.IndexByte":         extIndexByte,
-		"strings.IndexByte":       extIndexByte,
-		"strings.Index":           extIndexSeq,
-		"bytes.Index":             extIndexSeq,
+		"bytes.Equal":                    extBytesEqual,
+		"bytes.Compare":                  extBytesCompare,
+		"bytes.IndexByte":                extIndexByte,
+		"strings.IndexByte":              extIndexByte,
+		"strings.Index":                  extIndexSeq,
+		"bytes.Index":                    extIndexSeq,
 		"internal/stringslite.Index":     extIndexSeq,
 		"internal/stringslite.IndexByte": extIndexByte,
 		"strings.Compare": func(fr *frame, args []value) value {
@@ -146,38 +146,38 @@ func init() {
 		"unique.Make[string]":            nil,
 
 		// ---- sync/atomic functions (assembly); sequential semantics
-		"sync/atomic.LoadInt32":   extAtomicLoad,
-		"sync/atomic.LoadInt64":   extAtomicLoad,
-		"sync/atomic.LoadUint32":  extAtomicLoad,
-		"sync/atomic.LoadUint64":  extAtomicLoad,
-		"sync/atomic.LoadUintptr": extAtomicLoad,
-		"sync/atomic.LoadPointer": extAtomicLoad,
-		"sync/atomic.StoreInt32":  extAtomicStore,
-		"sync/atomic.StoreInt64":  extAtomicStore,
-		"sync/atomic.StoreUint32": extAtomicStore,
-		"sync/atomic.StoreUint64": extAtomicStore,
-		"sync/atomic.StoreUintptr": extAtomicStore,
-		"sync/atomic.StorePointer": extAtomicStore,
-		"sync/atomic.AddInt32":    extAtomicAdd,
-		"sync/atomic.AddInt64":    extAtomicAdd,
-		"sync/atomic.AddUint32":   extAtomicAdd,
-		"sync/atomic.AddUint64":   extAtomicAdd,
-		"sync/atomic.AddUintptr":  extAtomicAdd,
-		"sync/atomic.SwapInt32":   extAtomicSwap,
-		"sync/atomic.SwapInt64":   extAtomicSwap,
-		"sync/atomic.SwapUint32":  extAtomicSwap,
-		"sync/atomic.SwapUint64":  extAtomicSwap,
-		"sync/atomic.SwapPointer": extAtomicSwap,
+		"sync/atomic.LoadInt32":             extAtomicLoad,
+		"sync/atomic.LoadInt64":             extAtomicLoad,
+		"sync/atomic.LoadUint32":            extAtomicLoad,
+		"sync/atomic.LoadUint64":            extAtomicLoad,
+		"sync/atomic.LoadUintptr":           extAtomicLoad,
+		"sync/atomic.LoadPointer":           extAtomicLoad,
+		"sync/atomic.StoreInt32":            extAtomicStore,
+		"sync/atomic.StoreInt64":            extAtomicStore,
+		"sync/atomic.StoreUint32":           extAtomicStore,
+		"sync/atomic.StoreUint64":           extAtomicStore,
+		"sync/atomic.StoreUintptr":          extAtomicStore,
+		"sync/atomic.StorePointer":          extAtomicStore,
+		"sync/atomic.AddInt32":              extAtomicAdd,
+		"sync/atomic.AddInt64":              extAtomicAdd,
+		"sync/atomic.AddUint32":             extAtomicAdd,
+		"sync/atomic.AddUint64":             extAtomicAdd,
+		"sync/atomic.AddUintptr":            extAtomicAdd,
+		"sync/atomic.SwapInt32":             extAtomicSwap,
+		"sync/atomic.SwapInt64":             extAtomicSwap,
+		"sync/atomic.SwapUint32":            extAtomicSwap,
+		"sync/atomic.SwapUint64":            extAtomicSwap,
+		"sync/atomic.SwapPointer":           extAtomicSwap,
 		"sync/atomic.CompareAndSwapInt32":   extAtomicCAS,
 		"sync/atomic.CompareAndSwapInt64":   extAtomicCAS,
 		"sync/atomic.CompareAndSwapUint32":  extAtomicCAS,
 		"sync/atomic.CompareAndSwapUint64":  extAtomicCAS,
 		"sync/atomic.CompareAndSwapUintptr": extAtomicCAS,
 		"sync/atomic.CompareAndSwapPointer": extAtomicCAS,
-		"sync/atomic.AndInt32":  nil,
-		"sync/atomic.OrUint32":  nil,
-		"(*sync/atomic.Value).Load":  extAtomicValueLoad,
-		"(*sync/atomic.Value).Store": extAtomicValueStore,
+		"sync/atomic.AndInt32":              nil,
+		"sync/atomic.OrUint32":              nil,
+		"(*sync/atomic.Value).Load":         extAtomicValueLoad,
+		"(*sync/atomic.Value).Store":        extAtomicValueStore,
 
 		// ---- sync runtime hooks
 		"sync.runtime_Semacquire": func(fr *frame, args []value) value {
@@ -196,10 +196,10 @@ func init() {
 			fr.i.abort("blocked", "rwmutex acquire would block in %s", callerName(fr))
 			return nil
 		},
-		"sync.runtime_Semrelease":         noop,
+		"sync.runtime_Semrelease":          noop,
 		"sync.runtime_registerPoolCleanup": noop,
-		"sync.runtime_procPin":            func(fr *frame, args []value) value { return 0 },
-		"sync.runtime_procUnpin":          noop,
+		"sync.runtime_procPin":             func(fr *frame, args []value) value { return 0 },
+		"sync.runtime_procUnpin":           noop,
 		"sync.fatal": func(fr *frame, args []value) value {
 			fr.i.abort("panic", "fatal error: %s", toString(args[0]))
 			return nil
@@ -219,7 +219,10 @@ func init() {
 		"log.Printf":            noop,
 		"log.Println":           noop,
 		"log.Print":             noop,
-		"log.New":               func(fr *frame, args []value) value { v := zero(mustDeref(fr.fn.Signature.Results().At(0).Type())); return &v },
+		"log.New": func(fr *frame, args []value) value {
+			v := zero(mustDeref(fr.fn.Signature.Results().At(0).Type()))
+			return &v
+		},
 
 		// ---- context: never cancelled, no deadline
 		"context.WithTimeout":  extContextWithTimeout,
@@ -227,34 +230,34 @@ func init() {
 		"context.WithDeadline": extContextWith,
 
 		// ---- time
-		"time.now":          extTimeNow,
-		"time.runtimeNano":  extRuntimeNano,
-		"time.Sleep":        noop,
-		"time.NewTimer":     extNewTimer,
-		"time.NewTicker":    extNewTicker,
-		"time.After":        func(fr *frame, args []value) value { return (*channel)(nil) },
-		"time.AfterFunc":    extNewTimer,
-		"(*time.Timer).Stop":   func(fr *frame, args []value) value { return true },
-		"(*time.Timer).Reset":  func(fr *frame, args []value) value { return true },
-		"(*time.Ticker).Stop":  noop,
-		"(*time.Ticker).Reset": noop,
-		"(time.Time).String":   func(fr *frame, args []value) value { return "<time>" },
-		"(time.Time).Format":   func(fr *frame, args []value) value { return "<time>" },
+		"time.now":               extTimeNow,
+		"time.runtimeNano":       extRuntimeNano,
+		"time.Sleep":             noop,
+		"time.NewTimer":          extNewTimer,
+		"time.NewTicker":         extNewTicker,
+		"time.After":             func(fr *frame, args []value) value { return (*channel)(nil) },
+		"time.AfterFunc":         extNewTimer,
+		"(*time.Timer).Stop":     func(fr *frame, args []value) value { return true },
+		"(*time.Timer).Reset":    func(fr *frame, args []value) value { return true },
+		"(*time.Ticker).Stop":    noop,
+		"(*time.Ticker).Reset":   noop,
+		"(time.Time).String":     func(fr *frame, args []value) value { return "<time>" },
+		"(time.Time).Format":     func(fr *frame, args []value) value { return "<time>" },
 		"(time.Duration).String": func(fr *frame, args []value) value { return "<duration>" },
 
 		// ---- fmt / errors
-		"fmt.Errorf":   extErrorf,
-		"fmt.Sprintf":  extSprintf,
-		"fmt.Sprint":   extSprint,
-		"fmt.Sprintln": extSprint,
-		"fmt.Printf":   retZero,
-		"fmt.Println":  retZero,
-		"fmt.Fprintf":  retZero,
-		"fmt.Fprintln": retZero,
-		"fmt.Fprint":   retZero,
-		"fmt.Sscanf":   nil,
-		"errors.Is":    extErrorsIs,
-		"errors.As":    extErrorsAs,
+		"fmt.Errorf":    extErrorf,
+		"fmt.Sprintf":   extSprintf,
+		"fmt.Sprint":    extSprint,
+		"fmt.Sprintln":  extSprint,
+		"fmt.Printf":    retZero,
+		"fmt.Println":   retZero,
+		"fmt.Fprintf":   retZero,
+		"fmt.Fprintln":  retZero,
+		"fmt.Fprint":    retZero,
+		"fmt.Sscanf":    nil,
+		"errors.Is":     extErrorsIs,
+		"errors.As":     extErrorsAs,
 		"errors.Unwrap": extErrorsUnwrap,
 		"errors.Join":   nil,
 
